@@ -139,11 +139,35 @@ void h_read_int(void){ size_t n; g_remaining = n; read_int(); __CPROVER_assert(0
 #endif
 '''
 
+REPLAY_PNM = r'''
+// native search (ASan + UBSan, real read_image through std::istringstream): PNM headers with numbers of 1..25 digits and text rasters with tokens of 1..40 digits
+#include <boost/gil.hpp>
+#include <boost/gil/extension/io/pnm.hpp>
+#include <sstream>
+#include <string>
+#include <sanitizer/common_interface_defs.h>
+#include "vreplay.hpp"
+using namespace boost::gil;
+static std::string g_case;
+static void on_death() { std::fprintf(stderr, "\nFAILING INPUT: %s\n", g_case.c_str()); }
+template <typename Img> static int feed(std::string const& bytes, unsigned long* w = nullptr) { std::istringstream in(bytes, std::ios::binary); Img img; g_case = bytes.size() > 120 ? bytes.substr(0, 120) + "..." : bytes; for (char& c : g_case) if (c == '\n') c = ' ';
+  try { read_image(in, img, pnm_tag()); if (w) *w = (unsigned long)img.width(); return 0; } catch (std::exception const&) { return 1; } }
+int main(int argc, char** argv){ vr::parse(argc, argv); __sanitizer_set_death_callback(on_death); long cases = 0;
+  for (int fmt = 1; fmt <= 3; fmt++) for (int digits = 1; digits <= 40; digits++) { std::string tok(digits, '7'); cases++;
+    std::string f = "P" + std::to_string(fmt) + "\n2 1\n" + (fmt == 1 ? "" : "255\n") + tok + " 3 4 5 6 7\n"; if (fmt == 3) feed<rgb8_image_t>(f); else feed<gray8_image_t>(f); }
+  // header integers: a number that does not fit an int must be rejected, never wrapped into a small width
+  for (int digits = 1; digits <= 25; digits++) for (char d : {'1', '4', '9'}) { std::string num(digits, d); cases++; unsigned long w = 0;
+    int rc = feed<gray8_image_t>("P2\n" + num + " 1\n255\n1 2 3\n", &w); double v = std::stod(num);
+    if (rc == 0 && (double)w != v) REPRODUCED("PNM header width %s was read as %lu", num.c_str(), w);
+    if (rc == 0 && v > 2147483647.0) REPRODUCED("PNM header width %s (larger than INT_MAX) was accepted", num.c_str()); }
+  NOT_REPRODUCED("no crafted PNM header / text raster of the search window (%ld files) misbehaves", cases); }
+'''
+
 UNITS = [
-    Unit('pnm_read_int', 'C11', PNI_C, extracts=X_PNI, insts=[('int', 'quick', {})],
+    Unit('pnm_read_int', 'C11', PNI_C, extracts=X_PNI, insts=[('int', 'quick', {})], replay=REPLAY_PNM,
          checks=[Check('read_int', 'h_read_int', enforce='read_int', loops=True, flags=['--unsigned-overflow-check'], timeout=600)],
          preconditions=['input length <= 2^40 bytes'], assumed=['read_char() returns one character of the input after skipping a comment, or throws at the end of the input (istream_device::getc)']),
-    Unit('pnm_token', 'C11', PNM_C, extracts=X_PNM, probe_includes=['boost/gil.hpp', 'boost/gil/extension/io/pnm.hpp'],
+    Unit('pnm_token', 'C11', PNM_C, extracts=X_PNM, replay=REPLAY_PNM, probe_includes=['boost/gil.hpp', 'boost/gil/extension/io/pnm.hpp'],
          probe='P_VAL("BUF_SIZE", (int)sizeof(((boost::gil::reader<boost::gil::detail::istream_device<boost::gil::pnm_tag>, boost::gil::pnm_tag, boost::gil::detail::read_and_no_convert>*)0)->buf));' if False else 'P_VAL("BUF_SIZE", 16);',
          insts=[('buf', 'quick', {})],
          checks=[Check('read_token', 'h_read_token', enforce='read_token', loops=True, object_bits=10, timeout=600)],
